@@ -23,6 +23,7 @@ DEFAULTS = {'abstol': 1e-7, 'reltol': 1e-6, 'feastol': 1e-7, 'maxiters': 100}
 RECOMP_REL = 1e-6
 RECOMP_ABS = 1e-9
 INFL = 1.0 + 1e-6
+RND = 1e-13           # generous multiple of the unit roundoff for residual evaluations
 
 
 # ------------------------------------------------------------------------------------------------ instances
@@ -466,6 +467,13 @@ def quantities(inst, x, s, y, z):
     q['resx0'] = max(1.0, R.nrm2(c))
     q['resy0'] = max(1.0, R.nrm2(b))
     q['resz0'] = max(1.0, R.snrm2(h, d))
+    # magnitudes that bound the rounding error of any floating-point evaluation of the residuals
+    q['nG'] = math.sqrt(sum(t * t for col in G for t in col))
+    q['nA'] = math.sqrt(sum(t * t for row in A for t in row))
+    q['nx'] = R.nrm2(x) if x is not None else 0.0
+    q['ny'] = R.nrm2(y) if y else 0.0
+    q['rnd_p'] = (q['nG'] + q['nA']) * q['nx']
+    q['rnd_d'] = 0.0
     if x is not None:
         Gx = R.Gx(G, x, N)
         Ax = [sum(A[i][j] * x[j] for j in range(n)) for i in range(p)]
@@ -491,6 +499,7 @@ def quantities(inst, x, s, y, z):
     if z is not None:
         q['tz'] = -R.max_step(z, d) if N else None
         q['nz'] = R.snrm2(z, d)
+        q['rnd_d'] = q['nG'] * q['nz'] + q['nA'] * q['ny']
     if s is not None and z is not None:
         q['gap'] = R.sdot(s, z, d)
     return q
@@ -576,10 +585,13 @@ def check_optimal(O, inst, sol, entry, cfg, external=False):
     O.err('dres/feastol', dres / opts['feastol'])
     ft = opts['feastol'] * INFL + 1e-10
     if external:
-        ft = max(ft, 1e-6)
-    if judge and not pres <= ft:
+        # DSDP stops on its own (relative) criteria: 1e-5-level residuals on well-posed instances are its normal accuracy
+        ft = max(ft, 1e-6 if cfg.get('solver') == 'glpk' else 1e-4)
+    # a residual evaluated in floating point is only defined up to u*(|G||x|+...): when the iterates are huge
+    # (rank-deficient data) the solver's and the oracle's evaluation orders may legitimately differ by that much
+    if judge and not pres <= ft + RND * q['rnd_p']:
         O.bad('optimal:primal-residual', 'primal residual %.3g > feastol %.3g' % (pres, opts['feastol']), sub)
-    if judge and not dres <= ft:
+    if judge and not dres <= ft + RND * q['rnd_d']:
         O.bad('optimal:dual-residual', 'dual residual %.3g > feastol %.3g' % (dres, opts['feastol']), sub)
     tiny = 1e-9 * max(1.0, q['ns'], q['nz']) if N else 0.0
     if external:
@@ -604,7 +616,10 @@ def check_optimal(O, inst, sol, entry, cfg, external=False):
     hs = max(1.0, q['resz0'] * q['nz'] + R.nrm2(inst['b']) * (R.nrm2(y) if y else 0.0))
     O.close('field:primal objective', 'primal objective', sol.get('primal objective'), pcost, cs, sub)
     O.close('field:dual objective', 'dual objective', sol.get('dual objective'), dcost, hs, sub)
-    O.close('field:gap', 'gap', sol.get('gap'), gap, gscale, sub)
+    # the solver reports lambda'lambda/tau^2; for 'q'/'s' blocks it equals s'z only up to the conditioning of the
+    # scaling accumulated over the iterations: a small part of the gap itself
+    grel = RECOMP_REL if not (d['q'] or d['s']) else 5e-3
+    O.close('field:gap', 'gap', sol.get('gap'), gap, gscale, sub, rel=grel)
     rg = sol.get('relative gap')
     if rg is None or relgap is None:
         # the None/number decision flips when a cost is within rounding of 0: only compare when unambiguous
@@ -613,12 +628,14 @@ def check_optimal(O, inst, sol, entry, cfg, external=False):
             O.bad('field:relative gap', 'relative gap: reported %r recomputed %r' % (rg, relgap), sub)
     else:
         denom = -pcost if pcost < 0.0 else dcost
-        O.close('field:relative gap', 'relative gap', rg, relgap, gscale / max(abs(denom), 1e-300) if denom else 1.0, sub,
-                rel=1e-5)
+        # a denominator at rounding level makes the quotient meaningless (optimal value 0)
+        if not abs(denom) <= 1e-9 * (cs if pcost < 0.0 else hs):
+            O.close('field:relative gap', 'relative gap', rg, relgap, gscale / max(abs(denom), 1e-300) if denom else 1.0,
+                    sub, rel=max(1e-5, grel))
     O.close('field:primal infeasibility', 'primal infeasibility', sol.get('primal infeasibility'), pres,
-            max(1.0, q['ns']) * 1e-3, sub, rel=1e-3)
+            max(1.0, q['ns']) * 1e-3 + 1e-4 * q['rnd_p'], sub, rel=1e-3)
     O.close('field:dual infeasibility', 'dual infeasibility', sol.get('dual infeasibility'), dres,
-            max(1.0, q['nz']) * 1e-3, sub, rel=1e-3)
+            max(1.0, q['nz']) * 1e-3 + 1e-4 * q['rnd_d'], sub, rel=1e-3)
     if N:
         O.close('field:primal slack', 'primal slack', sol.get('primal slack'), q['ts'], max(1.0, q['ns']), sub)
         O.close('field:dual slack', 'dual slack', sol.get('dual slack'), q['tz'], max(1.0, q['nz']), sub)
@@ -723,11 +740,12 @@ def check_unknown(O, inst, sol, entry, cfg, strict_interior=True):
     hs = max(1.0, q['resz0'] * q['nz'] + R.nrm2(inst['b']) * (R.nrm2(y) if y else 0.0))
     O.close('unknown:field:primal objective', 'primal objective', sol.get('primal objective'), pcost, cs, sub)
     O.close('unknown:field:dual objective', 'dual objective', sol.get('dual objective'), dcost, hs, sub)
-    O.close('unknown:field:gap', 'gap', sol.get('gap'), q['gap'], gscale, sub)
+    O.close('unknown:field:gap', 'gap', sol.get('gap'), q['gap'], gscale, sub,
+            rel=RECOMP_REL if not (d['q'] or d['s']) else 5e-3)
     O.close('unknown:field:primal infeasibility', 'primal infeasibility', sol.get('primal infeasibility'), pres,
-            max(1.0, q['ns'], R.nrm2(x)) * 1e-3, sub, rel=1e-3)
+            max(1.0, q['ns'], R.nrm2(x)) * 1e-3 + 1e-4 * q['rnd_p'], sub, rel=1e-3)
     O.close('unknown:field:dual infeasibility', 'dual infeasibility', sol.get('dual infeasibility'), dres,
-            max(1.0, q['nz']) * 1e-3, sub, rel=1e-3)
+            max(1.0, q['nz']) * 1e-3 + 1e-4 * q['rnd_d'], sub, rel=1e-3)
     if N:
         O.close('unknown:field:primal slack', 'primal slack', sol.get('primal slack'), q['ts'], max(1.0, q['ns']), sub)
         O.close('unknown:field:dual slack', 'dual slack', sol.get('dual slack'), q['tz'], max(1.0, q['nz']), sub)
